@@ -3,6 +3,7 @@ import Driver.CoreCmd
 import Driver.ReadCmd
 import Driver.HistCmd
 import Driver.UHistCmd
+import Driver.EventsCmd
 open Driver
 
 def dispatch (line : String) : String :=
@@ -11,6 +12,8 @@ def dispatch (line : String) : String :=
   | cmd :: rest =>
     match cmd with
     | "core" => coreCmd rest
+    | "events" => eventsCmd rest
+    | "perf-rt" => perfRtCmd rest
     | "hist" => histCmd rest
     | "uhist" => uhistCmd rest
     | "read" => readCmd rest
